@@ -9,7 +9,7 @@ EXTENDS Arith, Units, Json
 CONSTANTS MaxLen
 VARIABLES sig, noise, hasnoise, g, ase, outS, outN
 vars == <<sig, noise, hasnoise, g, ase, outS, outN>>
-Vals == {<<1, 0>>, <<0, 1>>, <<-2, 1>>}
+Vals == {<<1, 0>>, <<0, 0>>, <<-2, 1>>}        \* zero samples included: an empty polarisation of a 2-pol input stays a polarisation
 Rows(n) == [1..n -> Vals]
 None == <<>>
 Gains == {1, 10, 100}
